@@ -47,6 +47,25 @@ class Task:
         self.started = False
 
 
+_STORES = ('STORE_ATTR', 'STORE_GLOBAL', 'STORE_SUBSCR', 'DELETE_SUBSCR', 'DELETE_ATTR')
+_store_cache = {}
+
+
+def _store_lines(code):
+    """Line numbers of a code object that contain a write to an attribute, a global or a container item."""
+    s = _store_cache.get(code)
+    if s is None:
+        import dis
+        s, cur = set(), None
+        for ins in dis.get_instructions(code):
+            if ins.starts_line is not None:
+                cur = ins.starts_line
+            if ins.opname in _STORES:
+                s.add(cur)
+        _store_cache[code] = s
+    return s
+
+
 class Kernel:
     EPOCH = 1_750_000_000  # fixed wall-clock origin (seconds)
 
@@ -90,6 +109,12 @@ class Kernel:
         self.preempt_prefix = sched.get('preempt_prefix')
         self.preempt_rng = subrng(sched.get('seed', seed), 'preempt')
         self.preemptions = 0
+        # 'store' mode aims the pre-emptions at the lines that follow a write to an attribute, a global or a container item (the
+        # places where a value shared between threads can change under a reader), and gives the task switched to a seeded
+        # stretch of lines to itself so that it reaches its own use of that object before the pre-empted task continues
+        self.preempt_mode = sched.get('preempt_mode', 'uniform')
+        self.preempt_stretch = list(sched.get('preempt_stretch') or [0])
+        self.no_preempt_until = 0
         self.lines = 0
 
     # ------------------------------------------------------------------ logging
@@ -251,6 +276,8 @@ class Kernel:
             return None
         prefix = self.preempt_prefix
         k = self
+        after_store = self.preempt_mode == 'store'
+        pending = [False]   # this thread's previous line wrote to an attribute / global / item
 
         def local(frame, event, arg):
             if event == 'line' and k.outcome is None:
@@ -258,7 +285,11 @@ class Kernel:
                 k.lines += 1
                 if not k.lines & 15:
                     k.now += 1
-                if k.preempt_rng.random() < k.preempt_p:
+                if after_store:
+                    was, pending[0] = pending[0], frame.f_lineno in _store_lines(frame.f_code)
+                    if not was:
+                        return local
+                if k.lines >= k.no_preempt_until and k.preempt_rng.random() < k.preempt_p:
                     k.preempt()
             return local
 
@@ -276,6 +307,7 @@ class Kernel:
         if not others:
             return
         self.preemptions += 1
+        self.no_preempt_until = self.lines + self.preempt_rng.choice(self.preempt_stretch)
         nxt = others[self.preempt_rng.randrange(len(others))]
         me.pred, me.deadline = None, None
         self._switch(me, nxt)
